@@ -826,6 +826,42 @@ fn check_exec(ii: &IndexedInstruments, m: &Model, exec_seed: u64, obs: &mut Obs)
         return Err(("execution_table_link_presence_wrong", format!("ExecutionTxMap::iter yields {} transmitters, {} mocks added", ExecutionTxMap::iter(&execution_tx_map).count(), added.len())));
     }
 
+    // ---- the per-exchange translation table every execution link is built around holds, under each of the
+    // exchange's OWN engine indices, the entity with that index (and nothing under foreign indices)
+    for k in ii.exchanges().iter() {
+        let Ok(map) = barter_execution::map::generate_execution_instrument_map(ii, k.value) else {
+            obs.link_skipped += 1;
+            continue;
+        };
+        for inst in ii.instruments().iter() {
+            obs.checks += 1;
+            obs.events += 1;
+            let own = inst.value.exchange.value == k.value;
+            let by_index = map.find_instrument_name_exchange(inst.key);
+            if own {
+                if by_index.ok() != Some(&inst.value.name_exchange) || map.find_instrument_index(&inst.value.name_exchange).ok() != Some(inst.key) {
+                    return Err(("execution_instrument_map_misaligned", format!("link table of {}: instrument {} ({}) resolves by index to {:?} and by name to {:?}", k.value, inst.key, inst.value.name_exchange, map.find_instrument_name_exchange(inst.key).ok(), map.find_instrument_index(&inst.value.name_exchange).ok())));
+                }
+            } else if let Ok(name) = by_index {
+                return Err(("execution_instrument_map_misaligned", format!("link table of {}: foreign instrument {} (of {}) resolves to {name}", k.value, inst.key, inst.value.exchange.value)));
+            }
+        }
+        for a in ii.assets().iter() {
+            obs.checks += 1;
+            obs.events += 1;
+            let own = a.value.exchange == k.value;
+            let by_index = map.find_asset_name_exchange(a.key);
+            if own {
+                if by_index.ok() != Some(&a.value.asset.name_exchange) || map.find_asset_index(&a.value.asset.name_exchange).ok() != Some(a.key) {
+                    return Err(("execution_instrument_map_misaligned", format!("link table of {}: asset {} ({}) resolves by index to {:?} and by name to {:?}", k.value, a.key, a.value.asset.name_exchange, map.find_asset_name_exchange(a.key).ok(), map.find_asset_index(&a.value.asset.name_exchange).ok())));
+                }
+            } else if let Ok(name) = by_index {
+                return Err(("execution_instrument_map_misaligned", format!("link table of {}: foreign asset {} (of {}) resolves to {name}", k.value, a.key, a.value.exchange)));
+            }
+        }
+        obs.cells.push("exec:instrument_map_of_each_exchange");
+    }
+
     // ---- every transmitter is wired to the receiver created by its own exchange's add_mock.
     // The receiver lives inside the (never polled) init future registered by that add_mock call;
     // dropping the k-th future must close exactly the transmitter of the k-th added exchange.
